@@ -61,6 +61,20 @@ func genC16(r *Rng, k int) *RunSpec {
 		a.Docs = append(a.Docs, DocSpec{id, mustJSON(d)})
 		objs = append(objs, id)
 	}
+	if r.Intn(4) == 0 {
+		// one of the objects was deleted some time ago already: what is stored is a Tombstone
+		a.Docs[2] = DocSpec{objs[2], mustJSON(J{"@context": asCtx, "type": "Tombstone", "id": objs[2], "formerType": "Note", "deleted": "2018-03-03T03:03:03Z"})}
+	}
+	if r.Intn(3) == 0 {
+		// the application has callbacks of its own behind the defaults
+		cbs := map[string]string{}
+		for _, t := range []string{"Update", "Delete", "Add", "Remove", "Like", "Block"} {
+			if r.Bool() {
+				cbs[t] = "wrapped"
+			}
+		}
+		a.SocCb = cbs
+	}
 	dupCol := "https://" + hostA + "/c/dup"
 	// owned target collections come in all four kinds
 	t1 := Pick(r, []string{"Collection", "Collection", "CollectionPage"})
